@@ -5,11 +5,13 @@
 (* One state per (signature, residue class of call indexes); the work happens in Next so that   *)
 (* all workers share it.  Each state prints its outcome statistics (vacuity counts).            *)
 EXTENDS PyCall, FiniteSetsExt
-CONSTANT NChunks
+CONSTANTS NChunks,     \* the call shapes are split into this many residue classes (one state each)
+          SigLimit     \* 0 = all signatures; n > 0 = only the first n (development aid, reported in the evidence)
 VARIABLES si, k, v
 
 NSigs == Len(SigSeq)
 NCalls == Len(CallSeq)
+ASSUME SeqsExact
 ASSUME PrintT(ToJson([nsigs |-> NSigs, ncalls |-> NCalls]))
 
 Chunk(kk) == { ci \in 1..NCalls : ci % NChunks = kk }
@@ -23,7 +25,7 @@ Add(o, acc) == [n |-> acc.n + 1,
 Stats(s, kk) == FoldSet(LAMBDA ci, acc : Add(One(s, CallSeq[ci]), acc),
                         [n |-> 0, bad |-> 0, ok |-> 0, kinds |-> [kd \in Kinds |-> 0]], Chunk(kk))
 
-Init == si \in 1..NSigs /\ k \in 0..(NChunks - 1) /\ v = "todo"
+Init == si \in 1..(IF SigLimit = 0 THEN NSigs ELSE SigLimit) /\ k \in 0..(NChunks - 1) /\ v = "todo"
 Next == /\ v = "todo" /\ UNCHANGED <<si, k>>
         /\ LET st == Stats(SigSeq[si], k) IN
            /\ PrintT(ToJson(st))
